@@ -18,10 +18,8 @@
    Strings (exit_status, reason) are codes in N; 0 is the empty (falsy) string.
    First half: the model.  Second half: the specification side (which runs exist and how they ended,
    independent of any span bookkeeping) and the functions that read a log.  No proofs in this file. *)
-From BV Require Import Base.Prelude.
+From BV Require Import Base.Prelude Base.KeyMap.
 From Coq Require Import NArith.
-
-Definition key := N.
 
 Definition s_success : N := 1%N.
 Definition s_abort : N := 2%N.
@@ -36,27 +34,6 @@ Definition or_default (o : option N) (d : N) : N :=
   end.
 Definition norm_status (o : option N) : N := or_default o s_success.
 Definition norm_reason (o : option N) : N := or_default o 0%N.
-
-(* ------------------------------------------------------------------ insertion-ordered dicts *)
-
-Fixpoint afind {A} (k : key) (l : list (key * A)) : option A :=
-  match l with
-  | [] => None
-  | (k', v) :: t => if N.eqb k k' then Some v else afind k t
-  end.
-
-Fixpoint aremove {A} (k : key) (l : list (key * A)) : list (key * A) :=
-  match l with
-  | [] => []
-  | (k', v) :: t => if N.eqb k k' then t else (k', v) :: aremove k t
-  end.
-
-(* d[k] = v : an existing key keeps its position *)
-Fixpoint aset {A} (k : key) (v : A) (l : list (key * A)) : list (key * A) :=
-  match l with
-  | [] => [(k, v)]
-  | (k', v') :: t => if N.eqb k k' then (k, v) :: t else (k', v') :: aset k v t
-  end.
 
 (* ------------------------------------------------------------------ the model *)
 
